@@ -209,6 +209,13 @@ func (e *Error) IsRedirectDisabled() bool {
 	return e.redirectDisabled
 }
 
+// WithRedirectDisabled marks the error as one that must be displayed to the
+// user instead of being sent to the (unverified) redirect_uri.
+func (e *Error) WithRedirectDisabled() *Error {
+	e.redirectDisabled = true
+	return e
+}
+
 // DefaultToServerError checks if the error is an Error
 // if not the provided error will be wrapped into a ServerError
 func DefaultToServerError(err error, description string) *Error {
